@@ -1,0 +1,60 @@
+//go:build verif
+
+package dials
+
+import "sync/atomic"
+
+// VerifHook, when installed, is called at every verifPoint with the point's name and
+// arguments.  It may block: the verification harness uses it to park the calling goroutine
+// and to log what the goroutine is about to do.
+type VerifHook func(point string, args ...any)
+
+var verifHook atomic.Pointer[VerifHook]
+
+// SetVerifHook installs (or, with nil, removes) the hook.
+func SetVerifHook(h VerifHook) {
+	if h == nil {
+		verifHook.Store(nil)
+		return
+	}
+	verifHook.Store(&h)
+}
+
+func verifPoint(point string, args ...any) {
+	if h := verifHook.Load(); h != nil {
+		(*h)(point, args...)
+	}
+}
+
+// VerifCfgSerial exposes the numeric serial of a CfgSerial.
+func VerifCfgSerial[T any](s CfgSerial[T]) uint64 { return s.s }
+
+// VerifMakeSerial builds a CfgSerial with arbitrary contents (stale, future or zero serials).
+func VerifMakeSerial[T any](s uint64, cfg *T) CfgSerial[T] { return CfgSerial[T]{s: s, cfg: cfg} }
+
+// VerifEvent describes a callback-goroutine event handed to the "cb.got" hook.
+type VerifEvent[T any] struct {
+	Kind       string // "newConfig", "watchErr", "register", "unregister"
+	Old, New   *T
+	Serial     uint64
+	Suppressed bool
+	Err        error
+	Handle     any    // identity of the callback handle (register/unregister)
+	RegHasCfg  bool   // register: the CfgSerial carried a config pointer
+	RegSerial  uint64 // register: the CfgSerial's serial
+}
+
+// VerifEventInfo decodes the argument of the "cb.got" hook.
+func VerifEventInfo[T any](ev any) VerifEvent[T] {
+	switch e := ev.(type) {
+	case *newConfigEvent[T]:
+		return VerifEvent[T]{Kind: "newConfig", Old: e.oldConfig, New: e.newConfig, Serial: e.serial, Suppressed: e.globalCBsSuppressed}
+	case *watchErrorEvent[T]:
+		return VerifEvent[T]{Kind: "watchErr", Old: e.oldConfig, New: e.newConfig, Err: e.err}
+	case *userCallbackRegistration[T]:
+		return VerifEvent[T]{Kind: "register", Handle: e.handle, RegHasCfg: e.serial.cfg != nil, RegSerial: e.serial.s, Old: e.serial.cfg}
+	case *userCallbackUnregister[T]:
+		return VerifEvent[T]{Kind: "unregister", Handle: e.handle}
+	}
+	return VerifEvent[T]{Kind: "unknown"}
+}
